@@ -5,6 +5,7 @@ package main
 
 import (
 	"fmt"
+	"strings"
 	"go/token"
 	"go/types"
 
@@ -44,6 +45,18 @@ func chanRole(v ssa.Value) string {
 
 func lastKey(s Sort) string {
 	return regHeap(ghLast+"$"+sanitize(string(s)), ArrSort(SInt, s))
+}
+
+func exprMentions(e *Expr, name string) bool {
+	if e.Kind == "ident" && e.Name == name {
+		return true
+	}
+	for _, a := range e.Args {
+		if exprMentions(a, name) {
+			return true
+		}
+	}
+	return false
 }
 
 func lastRecvKey(s Sort) string {
@@ -112,10 +125,24 @@ func (x *Exec) assumeChanInv(st *State, role string, v *Term, vt types.Type, gua
 	if len(ct.Assumes) > 0 {
 		x.trustedUsed["chan "+role+" (assumed clause)"] = true
 	}
-	for _, cl := range append(append([]*Clause{}, ct.Ensures...), ct.Assumes...) {
-		t, ok := x.evalSpecWith(st, cl.Expr, "inv", map[string]specBinding{"v": {Val{T: v}, vt}, "ch": {Val{T: ch}, cht}})
+	binds := map[string]specBinding{"v": {Val{T: v}, vt}, "ch": {Val{T: ch}, cht}}
+	if x.recvSelf != nil {
+		binds["self"] = *x.recvSelf
+	}
+	for _, cl := range ct.Ensures {
+		t, ok := x.evalSpecWith(st, cl.Expr, "inv", binds)
 		if ok {
-			st.add(Implies(guard, t))
+			st.add(Implies(guard, t)) // about a delivered value
+		}
+	}
+	for _, cl := range ct.Assumes {
+		t, ok := x.evalSpecWith(st, cl.Expr, "inv", binds)
+		if ok {
+			if strings.Contains(cl.Text, "v") && exprMentions(cl.Expr, "v") {
+				st.add(Implies(guard, t))
+			} else {
+				st.add(t) // about the channel itself: holds for every completed receive, closed or not
+			}
 		}
 	}
 }
@@ -159,6 +186,16 @@ func (x *Exec) doRecv(st *State, u *ssa.UnOp, chv Val, chSSA ssa.Value, commaOk 
 }
 
 func (x *Exec) recvFacts(st *State, chSSA ssa.Value, ch, v *Term, et types.Type, ok *Term) {
+	// the object whose field the channel is (b for b.bsOk): `self` in channel clauses
+	x.recvSelf = nil
+	if u, isU := chSSA.(*ssa.UnOp); isU {
+		if fa, isFA := u.X.(*ssa.FieldAddr); isFA {
+			if bv, has := st.regs[fa.X]; has && bv.T != nil {
+				x.recvSelf = &specBinding{Val{T: bv.T}, fa.X.Type()}
+			}
+		}
+	}
+	defer func() { x.recvSelf = nil }()
 	st.add(rangeFacts(v, et)...)
 	x.allocFactsLoose(st, v, et)
 	x.typeInvFacts(st, v, et)
@@ -214,6 +251,11 @@ func (x *Exec) doSelect(st *State, s *ssa.Select) bool {
 			cur = st.clone()
 		}
 		cur.trail = append(cur.trail, fmt.Sprintf("sel@%d=%d", b.Index, idx))
+		if idx >= 0 {
+			// a case on a nil channel is never ready
+			sc := s.States[idx]
+			cur.add(Neq(x.term(cur, x.val(cur, sc.Chan), sc.Chan.Type()), Zero))
+		}
 		tup := []Val{{T: IntLit(int64(idx))}, {T: False}}
 		// receive slots
 		for i, sc := range s.States {
